@@ -1,6 +1,8 @@
 (** C20 — geographic targets map to a metrically faithful local frame. *)
 From Coq Require Import Reals Lra Bool.
 From GS Require Import Num NumR Geo Sim.
+From Coq Require Import ZArith.
+From GS Require Import NumZ.
 From GS.Proofs Require Import GeoP SimP3.
 
 (** Structure of the conversion (every number type): z is the altitude difference; x is the
@@ -55,6 +57,11 @@ Qed.
 Theorem C20_reference_is_origin (ref : vec3 R) :
   haversine R_ops (vx ref) (vy ref) (vx ref) (vy ref) = 0%R.
 Proof. apply haversine_same_point. Qed.
+
+(** Non-vacuity (integers; structure only): the reference maps to the origin, an altitude difference to z. *)
+Example C20_example :
+  geo_to_cartesian Z_ops (1, 2, 3)%Z (1, 2, 3)%Z = (0, 0, 0)%Z /\ geo_to_cartesian Z_ops (1, 2, 3)%Z (1, 2, 10)%Z = (0, 0, 7)%Z.
+Proof. vm_compute. split; reflexivity. Qed.
 
 Print Assumptions C20_structure.
 Print Assumptions C20_goto_geo_same_place.
